@@ -231,7 +231,7 @@ func (m *Manager) onParserFinish(header *parser.PacketHeader, eventName string, 
 	if !ok {
 		return
 	}
-	go socket.onPacket(header, eventName, decode)
+	go socket.onPacket(header, eventName, decode, socket.nextArrival())
 }
 
 func (m *Manager) packet(packets ...*eioparser.Packet) {
